@@ -101,160 +101,165 @@ def check(case: Dict[str, Any]) -> Outcome:
                     return False
             return True
 
-        for step, op in enumerate(ops):
-            k = op[0]
-            if k == "create":
-                ci = copy.deepcopy(CLIENT_INFOS[op[1] % len(CLIENT_INFOS)])
-                ver = VERSIONS[op[2] % len(VERSIONS)]
-                meta = op[3] if len(op) > 3 else None
-                sid = store.create_session(ci, ver, copy.deepcopy(meta)) if meta is not None else store.create_session(ci, ver)
-                if not isinstance(sid, str) or sid in ever:
-                    out.fail("session-id-not-unique", f"step {step}: {sid!r}")
-                    break
-                ever.append(sid)
-                model[sid] = {"client_info": ci, "protocol_version": ver, "created_at": float(clock.now), "last_activity": float(clock.now), "metadata": meta or {}}
-            elif k == "get":
-                sid = ref(op[1])
-                s = store.get_session(sid)
-                if sid not in model:
-                    flags["after_gone"] = flags["after_gone"] or sid in ever
-                    if s is not None:
-                        out.fail("get-returned-a-gone-session", f"step {step}")
+        step, op = -1, None
+        try:
+            for step, op in enumerate(ops):
+                k = op[0]
+                if k == "create":
+                    ci = copy.deepcopy(CLIENT_INFOS[op[1] % len(CLIENT_INFOS)])
+                    ver = VERSIONS[op[2] % len(VERSIONS)]
+                    meta = op[3] if len(op) > 3 else None
+                    sid = store.create_session(ci, ver, copy.deepcopy(meta)) if meta is not None else store.create_session(ci, ver)
+                    if not isinstance(sid, str) or sid in ever:
+                        out.fail("session-id-not-unique", f"step {step}: {sid!r}")
                         break
-                elif s is None or s.session_id != sid:
-                    out.fail("get-missed-a-live-session", f"step {step}")
-                    break
-            elif k == "update":
-                sid = ref(op[1])
-                r = store.update_activity(sid)
-                want = sid in model
-                if not want and sid in ever:
-                    flags["after_gone"] = True
-                if r is not want:
-                    out.fail("update-activity-return-value", f"step {step}: returned {r!r} want {want}")
-                    break
-                if want:
-                    model[sid]["last_activity"] = float(clock.now)
-            elif k == "delete":
-                sid = ref(op[1])
-                r = store.delete_session(sid)
-                want = sid in model
-                if not want and sid in ever:
-                    flags["after_gone"] = True
-                if r is not want:
-                    out.fail("delete-return-value", f"step {step}: returned {r!r} want {want}")
-                    break
-                model.pop(sid, None)
-            elif k == "advance":
-                clock.now += int(op[1])
-            elif k == "cleanup":
-                spec = op[1]
-                if spec == "default":
-                    max_age: Optional[int] = None
-                    eff = 3600
-                elif isinstance(spec, list):  # ["idle_of", ref, delta]
-                    sid = ref(spec[1])
-                    idle = int(clock.now - model[sid]["last_activity"]) if sid in model else 0
-                    eff = max_age = max(0, idle + spec[2])
-                    if sid in model:
-                        flags["boundary"] = True
-                else:
-                    eff = max_age = int(spec)
-                expired = [sid for sid, m in model.items() if clock.now - m["last_activity"] > eff]
-                if any(clock.now - m["last_activity"] == eff for m in model.values()):
-                    flags["boundary"] = True
-                r = store.cleanup_expired() if max_age is None else store.cleanup_expired(max_age)
-                for sid in expired:
-                    del model[sid]
-                if r != len(expired):
-                    out.fail("cleanup-removed-count-differs", f"step {step}: returned {r!r}, model expires {len(expired)} (max_age={eff})")
-                    compare(step, op)
-                    break
-            elif k == "list_mutate":
-                flags["list_mut"] = True
-                d = store.list_sessions()
-                if set(d.keys()) != set(model.keys()):
-                    out.fail("list-differs-from-model", f"step {step}")
-                    break
-                how = op[1]
-                if how == "add":
-                    d["intruder"] = next(iter(d.values()), None)
-                elif how == "remove" and d:
-                    d.pop(sorted(d.keys())[0])
-                elif how == "clear":
-                    d.clear()
-                if not compare(step, op):
-                    sig = out.failures[-1][0]
-                    out.failures[-1] = ("mutating-listed-dict-changed-the-store", out.failures[-1][1] + f" ({sig})")
-                    break
-            elif k == "clear":
-                r = store.clear_all_sessions()
-                if r != len(model):
-                    out.fail("clear-count-differs", f"step {step}: {r!r} vs {len(model)}")
-                    break
-                model.clear()
-            elif k in ("init", "reinit"):
-                req_id += 1
-                ver = op[1]
-                ci = copy.deepcopy(CLIENT_INFOS[op[2] % len(CLIENT_INFOS)])
-                # "reinit": the initialize request arrives on a connection that already has a session (its id is
-                # passed along); "same" = with the very client info that session recorded
-                with_sid: Optional[str] = None
-                if k == "reinit":
-                    with_sid = ref(op[3])
-                    if len(op) > 4 and op[4] == "same" and with_sid in model:
-                        ci = copy.deepcopy(model[with_sid]["client_info"])
-                params: Dict[str, Any] = {"capabilities": {}, "clientInfo": ci}
-                if ver is not None:
-                    params["protocolVersion"] = ver
-                msg = parse_message({"jsonrpc": "2.0", "id": req_id, "method": "initialize", "params": params})
-                before = set(store.list_sessions().keys())
-
-                async def go():
-                    return await handler.handle_message(msg, with_sid) if with_sid is not None else await handler.handle_message(msg)
-
-                resp, sid = run_virtual(go)
-                if with_sid is not None and with_sid in model:
-                    model[with_sid]["last_activity"] = float(clock.now)  # a message bearing that session id
-                new = set(store.list_sessions().keys()) - before
-                if len(new) != 1:
-                    out.fail("initialize-did-not-create-exactly-one-session", f"step {step}: {len(new)} new")
-                    break
-                nid = next(iter(new))
-                if nid in ever:
-                    out.fail("session-id-not-unique", f"step {step}")
-                    break
-                if sid != nid:
-                    out.fail("initialize-returned-other-session-id", f"step {step}")
-                ever.append(nid)
-                answered = (getattr(resp, "result", None) or {}).get("protocolVersion")
-                model[nid] = {"client_info": ci, "protocol_version": answered, "created_at": float(clock.now), "last_activity": float(clock.now), "metadata": {}}
-                if answered not in SUPPORTED_VERSIONS:
-                    out.fail("session-records-unsupported-version", f"step {step}: {answered!r}")
-            elif k == "dispatch":
-                req_id += 1
-                method = op[1]
-                sid = ref(op[2])
-                msg = parse_message({"jsonrpc": "2.0", "id": req_id, "method": method})
-
-                async def go2():
-                    return await handler.handle_message(msg, sid)
-
-                run_virtual(go2)
-                if sid in model:
-                    if method in ("ping", "boom/raise", "fine/ok"):
-                        # a request for a registered method is activity of that session, whether its handler succeeds or not
+                    ever.append(sid)
+                    model[sid] = {"client_info": ci, "protocol_version": ver, "created_at": float(clock.now), "last_activity": float(clock.now), "metadata": meta or {}}
+                elif k == "get":
+                    sid = ref(op[1])
+                    s = store.get_session(sid)
+                    if sid not in model:
+                        flags["after_gone"] = flags["after_gone"] or sid in ever
+                        if s is not None:
+                            out.fail("get-returned-a-gone-session", f"step {step}")
+                            break
+                    elif s is None or s.session_id != sid:
+                        out.fail("get-missed-a-live-session", f"step {step}")
+                        break
+                elif k == "update":
+                    sid = ref(op[1])
+                    r = store.update_activity(sid)
+                    want = sid in model
+                    if not want and sid in ever:
+                        flags["after_gone"] = True
+                    if r is not want:
+                        out.fail("update-activity-return-value", f"step {step}: returned {r!r} want {want}")
+                        break
+                    if want:
                         model[sid]["last_activity"] = float(clock.now)
+                elif k == "delete":
+                    sid = ref(op[1])
+                    r = store.delete_session(sid)
+                    want = sid in model
+                    if not want and sid in ever:
+                        flags["after_gone"] = True
+                    if r is not want:
+                        out.fail("delete-return-value", f"step {step}: returned {r!r} want {want}")
+                        break
+                    model.pop(sid, None)
+                elif k == "advance":
+                    clock.now += int(op[1])
+                elif k == "cleanup":
+                    spec = op[1]
+                    if spec == "default":
+                        max_age: Optional[int] = None
+                        eff = 3600
+                    elif isinstance(spec, list):  # ["idle_of", ref, delta]
+                        sid = ref(spec[1])
+                        idle = int(clock.now - model[sid]["last_activity"]) if sid in model else 0
+                        eff = max_age = max(0, idle + spec[2])
+                        if sid in model:
+                            flags["boundary"] = True
                     else:
-                        real = store.get_session(sid)
-                        if real is not None:
-                            model[sid]["last_activity"] = real.last_activity if real.last_activity in (model[sid]["last_activity"], float(clock.now)) else model[sid]["last_activity"]
-                elif sid in ever:
-                    flags["after_gone"] = True
-            else:
-                raise ValueError(op)
-            if not compare(step, op):
-                break
+                        eff = max_age = int(spec)
+                    expired = [sid for sid, m in model.items() if clock.now - m["last_activity"] > eff]
+                    if any(clock.now - m["last_activity"] == eff for m in model.values()):
+                        flags["boundary"] = True
+                    r = store.cleanup_expired() if max_age is None else store.cleanup_expired(max_age)
+                    for sid in expired:
+                        del model[sid]
+                    if r != len(expired):
+                        out.fail("cleanup-removed-count-differs", f"step {step}: returned {r!r}, model expires {len(expired)} (max_age={eff})")
+                        compare(step, op)
+                        break
+                elif k == "list_mutate":
+                    flags["list_mut"] = True
+                    d = store.list_sessions()
+                    if set(d.keys()) != set(model.keys()):
+                        out.fail("list-differs-from-model", f"step {step}")
+                        break
+                    how = op[1]
+                    if how == "add":
+                        d["intruder"] = next(iter(d.values()), None)
+                    elif how == "remove" and d:
+                        d.pop(sorted(d.keys())[0])
+                    elif how == "clear":
+                        d.clear()
+                    if not compare(step, op):
+                        sig = out.failures[-1][0]
+                        out.failures[-1] = ("mutating-listed-dict-changed-the-store", out.failures[-1][1] + f" ({sig})")
+                        break
+                elif k == "clear":
+                    r = store.clear_all_sessions()
+                    if r != len(model):
+                        out.fail("clear-count-differs", f"step {step}: {r!r} vs {len(model)}")
+                        break
+                    model.clear()
+                elif k in ("init", "reinit"):
+                    req_id += 1
+                    ver = op[1]
+                    ci = copy.deepcopy(CLIENT_INFOS[op[2] % len(CLIENT_INFOS)])
+                    # "reinit": the initialize request arrives on a connection that already has a session (its id is
+                    # passed along); "same" = with the very client info that session recorded
+                    with_sid: Optional[str] = None
+                    if k == "reinit":
+                        with_sid = ref(op[3])
+                        if len(op) > 4 and op[4] == "same" and with_sid in model:
+                            ci = copy.deepcopy(model[with_sid]["client_info"])
+                    params: Dict[str, Any] = {"capabilities": {}, "clientInfo": ci}
+                    if ver is not None:
+                        params["protocolVersion"] = ver
+                    msg = parse_message({"jsonrpc": "2.0", "id": req_id, "method": "initialize", "params": params})
+                    before = set(store.list_sessions().keys())
+
+                    async def go():
+                        return await handler.handle_message(msg, with_sid) if with_sid is not None else await handler.handle_message(msg)
+
+                    resp, sid = run_virtual(go)
+                    if with_sid is not None and with_sid in model:
+                        model[with_sid]["last_activity"] = float(clock.now)  # a message bearing that session id
+                    new = set(store.list_sessions().keys()) - before
+                    if len(new) != 1:
+                        out.fail("initialize-did-not-create-exactly-one-session", f"step {step}: {len(new)} new")
+                        break
+                    nid = next(iter(new))
+                    if nid in ever:
+                        out.fail("session-id-not-unique", f"step {step}")
+                        break
+                    if sid != nid:
+                        out.fail("initialize-returned-other-session-id", f"step {step}")
+                    ever.append(nid)
+                    answered = (getattr(resp, "result", None) or {}).get("protocolVersion")
+                    model[nid] = {"client_info": ci, "protocol_version": answered, "created_at": float(clock.now), "last_activity": float(clock.now), "metadata": {}}
+                    if answered not in SUPPORTED_VERSIONS:
+                        out.fail("session-records-unsupported-version", f"step {step}: {answered!r}")
+                elif k == "dispatch":
+                    req_id += 1
+                    method = op[1]
+                    sid = ref(op[2])
+                    msg = parse_message({"jsonrpc": "2.0", "id": req_id, "method": method})
+
+                    async def go2():
+                        return await handler.handle_message(msg, sid)
+
+                    run_virtual(go2)
+                    if sid in model:
+                        if method in ("ping", "boom/raise", "fine/ok"):
+                            # a request for a registered method is activity of that session, whether its handler succeeds or not
+                            model[sid]["last_activity"] = float(clock.now)
+                        else:
+                            real = store.get_session(sid)
+                            if real is not None:
+                                model[sid]["last_activity"] = real.last_activity if real.last_activity in (model[sid]["last_activity"], float(clock.now)) else model[sid]["last_activity"]
+                    elif sid in ever:
+                        flags["after_gone"] = True
+                else:
+                    raise ValueError(op)
+                if not compare(step, op):
+                    break
+        except Exception as e_:  # noqa
+            # an operation of the store / the dispatcher raised to its caller
+            out.fail(f"operation-raised:{op[0] if op else '?'}", f"step {step} op {op!r}: {type(e_).__name__}: {e_}")
         out.nontrivial = any(flags.values())
         out.classes = tuple(f for f, v in flags.items() if v) + (f"len:{min(len(ops) // 10 * 10, 100)}",)
     finally:
@@ -406,13 +411,41 @@ def job_machine(col: Collector, seed: int, tier: str, shard: int, n: int, steps:
     )
 
 
-JOBS = {"hyp": job_hyp, "exhaustive": job_exhaustive, "machine": job_machine}
+def job_soak(col: Collector, seed: int, tier: str) -> None:
+    """long lives: hundreds of session-bound messages with hour-long gaps in between and no cleanup at all - whatever
+    the store does "every n-th call" or "after a while" on its own shows up as a difference from the map"""
+    for variant in range(6):
+        ops: List[List[Any]] = [["create", 1, 0], ["create", 0, 1], ["init", "2025-06-18", 2]]
+        for i in range(260 + 10 * variant):
+            s_ = (i + variant) % 3
+            if i % (7 + variant) == 0:
+                ops.append(["advance", [3601, 7200, 59, 86400][(i // 7 + variant) % 4]])
+            kind = (i + 2 * variant) % 5
+            if kind in (0, 1):
+                ops.append(["dispatch", "ping", s_])
+            elif kind == 2:
+                ops.append(["update", s_])
+            elif kind == 3:
+                ops.append(["dispatch", ["fine/ok", "boom/raise", "nope/method"][i % 3], s_])
+            else:
+                ops.append(["get", s_])
+            if i % 97 == 96:
+                ops.append(["create", i % 3, i % 4])
+        ops.append(["cleanup", ["idle_of", 0, 0]])
+        case = {"ops": ops}
+        o = check(case)
+        o.classes = o.classes + ("soak",)
+        col.record(case, o)
+    col.exhaustive_parts.append("6 long lives of ~300 session-bound operations with gaps of up to a day and a single cleanup at the very end")
+
+
+JOBS = {"hyp": job_hyp, "exhaustive": job_exhaustive, "machine": job_machine, "soak": job_soak}
 
 
 def jobs(tier: str):
     if tier == "quick":
-        return [("hyp", {"shard": s, "n": 250, "max_len": 60}) for s in range(8)] + [("exhaustive", {"shard": s, "nshards": 6, "maxlen": 4}) for s in range(6)] + [("machine", {"shard": s, "n": 150, "steps": 50}) for s in range(2)]
-    return [("hyp", {"shard": s, "n": 4000, "max_len": 200}) for s in range(8)] + [("exhaustive", {"shard": s, "nshards": 16, "maxlen": 5}) for s in range(16)] + [("machine", {"shard": s, "n": 3000, "steps": 120}) for s in range(4)]
+        return [("hyp", {"shard": s, "n": 250, "max_len": 60}) for s in range(8)] + [("exhaustive", {"shard": s, "nshards": 6, "maxlen": 4}) for s in range(6)] + [("machine", {"shard": s, "n": 150, "steps": 50}) for s in range(2)] + [("soak", {})]
+    return [("hyp", {"shard": s, "n": 4000, "max_len": 200}) for s in range(8)] + [("exhaustive", {"shard": s, "nshards": 16, "maxlen": 5}) for s in range(16)] + [("machine", {"shard": s, "n": 3000, "steps": 120}) for s in range(4)] + [("soak", {})]
 
 
 def shrink(signature: str, seed: int):
